@@ -5,25 +5,27 @@
    x_<n>), arbitrary white space (blank, tab, LF, CR) after every token (non-empty after "not"), comment lines and stray
    dots between statements, comment lines before the first statement, "#incremental." / "#step." for steps.
    Quantifying over all txt with G_program inc steps txt is quantifying over all spellings sigma and layouts l. *)
-Require Import V.Lib.Base V.Lib.Calls V.Lib.Contract V.C09.Spec V.C10.Model V.C10.Grammar V.C10.ProofsProg V.C10.ProofsContract.
+Require Import V.Lib.Base V.Lib.Calls V.Lib.Contract V.C09.Spec V.C10.Model V.C10.Args V.C10.Grammar V.C10.ProofsProg V.C10.ProofsContract.
 Local Open Scope Z_scope.
 
 (* Round trip: every text of a valid program is accepted (status 1, no error line) and the reader delivers exactly
    initProgram(inc), then per step beginStep, the directives in order with the same atoms, signs, weights (weight 0
    omitted: norm_call), bounds, priorities, values, modifiers, conditions, endStep.
-   Output terms are identifiers or quoted strings (terms with argument lists: correspondence check only, hence _partial). *)
-Theorem c10_roundtrip_partial : forall inc steps txt,
+   #output terms: identifier, quoted string, or identifier with an argument list (white space between the characters of
+   the argument list is layout).  Boundaries of the relation (see notes/C10.md): strings contain no CR / NUL, a comment
+   line ends with a line break, the text after a "#step." is not empty (the documented caveat). *)
+Theorem c10_roundtrip : forall inc steps txt,
   Forall (Forall stmt_ok) steps -> G_program inc steps txt ->
   observe (read_text txt) = 1 :: 0 :: enc_calls (program_calls inc steps).
 Proof. exact roundtrip. Qed.
-Print Assumptions c10_roundtrip_partial.
+Print Assumptions c10_roundtrip.
 
 (* Layout / spelling independence: two texts of the same program are read identically. *)
-Theorem c10_layout_partial : forall inc steps txt1 txt2,
+Theorem c10_layout : forall inc steps txt1 txt2,
   Forall (Forall stmt_ok) steps -> G_program inc steps txt1 -> G_program inc steps txt2 ->
   observe (read_text txt1) = observe (read_text txt2).
 Proof. intros inc steps t1 t2 H G1 G2. rewrite (roundtrip inc steps t1 H G1), (roundtrip inc steps t2 H G2). reflexivity. Qed.
-Print Assumptions c10_layout_partial.
+Print Assumptions c10_layout.
 
 (* Consumer contract (support for C04), for EVERY byte list t, accepted or not, no validity hypothesis: the calls the
    reader delivers satisfy V.Lib.Contract.contract_ok (initProgram first and once, directives only inside
@@ -71,4 +73,31 @@ Proof.
     + apply S_nil. constructor.
 Qed.
 Example ex_read : observe (read_text ex_text) = 1 :: 0 :: enc_calls (program_calls false ex_steps).
+Proof. vm_compute. reflexivity. Qed.
+
+(* a term with an argument list, written with blanks inside:   #output f( a , "x y" ) : b.   *)
+Definition ex2_steps : list (list call) := [[COutput [102; 40; 97; 44; 34; 120; 32; 121; 34; 41] [2]]].
+Definition ex2_text : list Z :=
+  [35; 111; 117; 116; 112; 117; 116; 32; 102; 40; 32; 97; 32; 44; 32; 34; 120; 32; 121; 34; 32; 41; 32; 58; 32; 98; 46].
+Example ex2_valid : Forall (Forall stmt_ok) ex2_steps.
+Proof.
+  repeat constructor; try (unfold lit_ok, atom_ok, INT_MAX; simpl; lia).
+  right. exists 102, [], [[IChar 97]; [IStr [120; 32; 121]]]. repeat split; try reflexivity; try discriminate. repeat constructor.
+Qed.
+Example ex2_grammar : G_program false ex2_steps ex2_text.
+Proof.
+  exists [], [], [], ex2_text. repeat split; try constructor; try discriminate. cbn [G_steps].
+  change ex2_text with ([] ++ ex2_text ++ []). apply S_cons; [constructor | | apply S_nil; constructor].
+  cbn [G_stmt]. exists [32], [102; 40; 32; 97; 32; 44; 32; 34; 120; 32; 121; 34; 32; 41; 32], [58; 32; 98], [46]. repeat split.
+  - right. exists 102, [], [[IChar 97]; [IStr [120; 32; 121]]], [], [32], [97; 32; 44; 32; 34; 120; 32; 121; 34; 32], [32].
+    repeat split; try reflexivity; try discriminate; [repeat constructor|].
+    cbn [G_args]. exists [97; 32], [32], [34; 120; 32; 121; 34; 32]. repeat split.
+    + cbn [G_items]. exists [32], []. repeat split.
+    + cbn [G_items]. exists [32], []. repeat split.
+  - right. exists [58; 32], [98]. repeat split.
+    + exists [32]. split; reflexivity.
+    + cbn. exists [98], []. repeat split. left. split; [lia | reflexivity].
+  - exists []. split; reflexivity.
+Qed.
+Example ex2_read : observe (read_text ex2_text) = 1 :: 0 :: enc_calls (program_calls false ex2_steps).
 Proof. vm_compute. reflexivity. Qed.
